@@ -134,8 +134,15 @@ func judgeCLI(c *core.Ctx, legacy bool, doc string, files []cliFile, inject int)
 	var args []string
 	var desc []map[string]any
 	injectPath := ""
+	sameName := len(files) >= 2 && len(doc)%3 == 0
 	for i, f := range files {
 		path := filepath.Join(dir, fmt.Sprintf("p%d.json", i))
+		if sameName {
+			// different files that share their base name (base/patch.json, overlay/patch.json, ...)
+			sub := filepath.Join(dir, fmt.Sprintf("d%d", i))
+			os.Mkdir(sub, 0o755)
+			path = filepath.Join(sub, "patch.json")
+		}
 		switch f.kind {
 		case "missing":
 		case "directory":
